@@ -508,6 +508,9 @@ class Interp:
             return d
         if isinstance(ty, TRec) and isinstance(val, ConstDict):
             return self.new_rec(val.items)
+        if isinstance(val, CompV):
+            from . import seqs
+            return seqs.bulk_materialize(self, val, ty)
         if isinstance(ty, TTuple) and (isinstance(val, tuple) or (isinstance(val, ConstSeq) and val.kind == 'tuple')):
             items = val.items if isinstance(val, ConstSeq) else list(val)
             if len(items) == len(ty.ts):
@@ -1737,6 +1740,11 @@ class InterpComp:
         if q[0] == 'const':
             pairs = self.eval_gen_const(q[1], q[2], q[3], q[4])
             return ConstDict([(p[0], p[1]) for p in pairs])
+        from . import seqs
+        _, vars_, guard, elt, coll = q
+        if len(vars_) == 1 and not n.generators[0].ifs and seqs.has_list_literal(elt[1]) \
+                and isinstance(elt[0], SV) and elt[0].t.eq(vars_[0]):
+            return CompV('dict', vars_[0], guard, elt[1], coll)
         return self.reg.dictcomp(self, n, fr, q)
 
 
@@ -1807,7 +1815,7 @@ class InterpStmt:
     def st_AnnAssign(self, s, fr):
         if s.value is not None:
             v = self.ev(s.value, fr)
-            if isinstance(s.target, ast.Name) and isinstance(v, (ConstSeq, ConstDict)):
+            if isinstance(s.target, ast.Name) and isinstance(v, (ConstSeq, ConstDict, CompV)):
                 # typed empty literal: keep the declared type for later materialisation
                 ty = self.ts.ann_to_type(s.annotation, fr.module, fr.defcls)
                 if ty != ANY and isinstance(ty, (TList, TDict, TSet)):
